@@ -553,6 +553,14 @@ theorem Prog.trees_append (p q : Prog ε) : Prog.trees X (p ++ q) = Prog.trees X
   | nil => rfl
   | cons d rest ih => simp only [List.cons_append, Prog.trees, ih]
 
+theorem trees_length (p : Prog ε) : (Prog.trees X p).length = p.length := by
+  induction p with
+  | nil => rfl
+  | cons d rest ih => simp [Prog.trees, ih]
+
+theorem dropLast_snoc2 {α : Type} (x : α) (xs : List α) (a : α) : (x :: (xs ++ [a])).dropLast = x :: xs := by
+  rw [← List.cons_append, List.dropLast_concat]
+
 theorem followB_head (d : Decl ε) {k k' : List Tok} (h : k.head? = k'.head?) : d.followB k = d.followB k' := by
   cases d with
   | annD a =>
